@@ -5,7 +5,7 @@ namespace Tunnox.C14
 /-- The tier a call of `op` may address. -/
 def tierOK (R : Route) (op : Op) (t : Tier) : Prop :=
   match op with
-  | .incr | .exp _ => t = R.ck
+  | .incr | .exp _ | .setnx _ _ | .hset _ | .hget | .hdel => t = R.ck
   | _ => t = R.ck ∨ (R.pe = true ∧ t = .persistent)
 
 /-- Program points that talk to the persistent tier are only reached when it takes part. -/
@@ -58,7 +58,7 @@ theorem StepOK.of_parts {R : Route} {tid : Nat} {th : Thread} {o : Out}
 set_option maxHeartbeats 1000000 in
 theorem stepThread_ok (lk : Bool) (R : Route) (haux : R.aux = R.ck) (tid : Nat) (ft : Option Tier) (σ : St)
     (th : Thread) (hpc : pcOK R th) : StepOK R tid th (stepThread lk R tid ft σ th) := by
-  obtain ⟨op, pc, inv, ret, res, cver, rver⟩ := th
+  obtain ⟨op, pc, inv, ret, res, cver, rver, node⟩ := th
   cases op <;> cases pc <;>
     first
     | (exact writeStep_ok R tid ft _ _ _ _ (by intro t; simp [tierOK]))
@@ -88,61 +88,92 @@ theorem evOK_mono {R : Route} {ths ths' : List Thread} {e : Ev}
   obtain ⟨t', ht', hop⟩ := h _ _ ht
   exact ⟨t', ht', by rw [hop]; exact hok⟩
 
+/-- A schedule entry changes nothing but the clock, evicts a cache entry, or lets an enabled thread take
+one step on the state as its node sees it. -/
+theorem stepCfg_cases (V : Variant) (R : Route) (cfg : Cfg) (e : Entry) :
+    stepCfg V R cfg e = { cfg with now := cfg.now + 1 } ∨
+    (∃ t, e.evict = some t ∧
+      stepCfg V R cfg e = { cfg with st := evictCell e.tid t cfg.st, now := cfg.now + 1 }) ∨
+    ∃ th, e.evict = none ∧ cfg.threads[e.tid]? = some th ∧ enabled V.lk (view th.node cfg.st) e.tid th = true ∧
+      stepCfg V R cfg e =
+        { st := view th.node (stepThread V.lk R e.tid e.fault (view th.node cfg.st)
+                  { th with inv := some (th.inv.getD cfg.now), ret := some cfg.now }).st
+          threads := (cfg.threads.set e.tid (stepThread V.lk R e.tid e.fault (view th.node cfg.st)
+                  { th with inv := some (th.inv.getD cfg.now), ret := some cfg.now }).th) ++
+                  ((stepThread V.lk R e.tid e.fault (view th.node cfg.st)
+                  { th with inv := some (th.inv.getD cfg.now), ret := some cfg.now }).spawn.map
+                    (fun t => { t with node := th.node })).toList
+          now := cfg.now + 1
+          trace := (stepThread V.lk R e.tid e.fault (view th.node cfg.st)
+                  { th with inv := some (th.inv.getD cfg.now), ret := some cfg.now }).evs.reverse ++ cfg.trace } := by
+  unfold stepCfg
+  cases hev : e.evict with
+  | some t => exact Or.inr (Or.inl ⟨t, rfl, rfl⟩)
+  | none =>
+    simp only
+    cases hth : cfg.threads[e.tid]? with
+    | none => exact Or.inl rfl
+    | some th =>
+      simp only
+      split
+      · exact Or.inr (Or.inr ⟨th, trivial, rfl, by assumption, rfl⟩)
+      · exact Or.inl rfl
+
 theorem routeInv_step (V : Variant) (R : Route) (haux : R.aux = R.ck) (cfg : Cfg) (e : Entry)
     (h : RouteInv R cfg) : RouteInv R (stepCfg V R cfg e) := by
-  unfold stepCfg
-  cases hth : cfg.threads[e.tid]? with
-  | none => exact ⟨h.pcs, h.evs⟩
-  | some th =>
-    simp only
-    split
-    · -- the thread moves
-      have hlt : e.tid < cfg.threads.length := by
-        rcases Nat.lt_or_ge e.tid cfg.threads.length with h1 | h1
+  rcases stepCfg_cases V R cfg e with heq | ⟨t, _, heq⟩ | ⟨th, _, hth, _, heq⟩
+  · rw [heq]; exact ⟨h.pcs, h.evs⟩
+  · rw [heq]; exact ⟨h.pcs, h.evs⟩
+  · rw [heq]
+    have hlt : e.tid < cfg.threads.length := by
+      rcases Nat.lt_or_ge e.tid cfg.threads.length with h1 | h1
+      · exact h1
+      · rw [List.getElem?_eq_none h1] at hth; cases hth
+    have hmem : th ∈ cfg.threads := List.mem_of_getElem? hth
+    have hpc0 : pcOK R { th with inv := some (th.inv.getD cfg.now), ret := some cfg.now } := by
+      have := h.pcs th hmem
+      simpa [pcOK] using this
+    have ok := stepThread_ok V.lk R haux e.tid e.fault (view th.node cfg.st) _ hpc0
+    have hkeep : ∀ (j : Nat) (t : Thread), cfg.threads[j]? = some t →
+        ∃ t' : Thread, ((cfg.threads.set e.tid
+          (stepThread V.lk R e.tid e.fault (view th.node cfg.st)
+            { th with inv := some (th.inv.getD cfg.now), ret := some cfg.now }).th) ++
+          ((stepThread V.lk R e.tid e.fault (view th.node cfg.st)
+            { th with inv := some (th.inv.getD cfg.now), ret := some cfg.now }).spawn.map
+              (fun t => { t with node := th.node })).toList)[j]? = some t'
+          ∧ t'.op = t.op := by
+      intro j t hj
+      have hjlt : j < cfg.threads.length := by
+        rcases Nat.lt_or_ge j cfg.threads.length with h1 | h1
         · exact h1
-        · rw [List.getElem?_eq_none h1] at hth; cases hth
-      have hmem : th ∈ cfg.threads := List.mem_of_getElem? hth
-      have hpc0 : pcOK R { th with inv := some (th.inv.getD cfg.now), ret := some cfg.now } := by
-        have := h.pcs th hmem
+        · rw [List.getElem?_eq_none h1] at hj; cases hj
+      rw [List.getElem?_append_left (by simpa using hjlt)]
+      by_cases hji : e.tid = j
+      · subst hji
+        refine ⟨_, by rw [List.getElem?_set_self hjlt], ?_⟩
+        rw [ok.op]
+        rw [hth] at hj
+        cases hj
+        rfl
+      · exact ⟨t, by simp [List.getElem?_set, hji, hj], rfl⟩
+    constructor
+    · intro t ht
+      simp only [List.mem_append] at ht
+      rcases ht with ht | ht
+      · rcases List.mem_or_eq_of_mem_set ht with ht | ht
+        · exact h.pcs t ht
+        · subst ht; exact ok.pc
+      · simp only [Option.mem_toList, Option.mem_def, Option.map_eq_some_iff] at ht
+        obtain ⟨t0, ht0, rfl⟩ := ht
+        have := ok.spawn t0 ht0
         simpa [pcOK] using this
-      have ok := stepThread_ok V.lk R haux e.tid e.fault cfg.st _ hpc0
-      have hkeep : ∀ (j : Nat) (t : Thread), cfg.threads[j]? = some t →
-          ∃ t' : Thread, ((cfg.threads.set e.tid
-            (stepThread V.lk R e.tid e.fault cfg.st
-              { th with inv := some (th.inv.getD cfg.now), ret := some cfg.now }).th) ++
-            (stepThread V.lk R e.tid e.fault cfg.st
-              { th with inv := some (th.inv.getD cfg.now), ret := some cfg.now }).spawn.toList)[j]? = some t'
-            ∧ t'.op = t.op := by
-        intro j t hj
-        have hjlt : j < cfg.threads.length := by
-          rcases Nat.lt_or_ge j cfg.threads.length with h1 | h1
-          · exact h1
-          · rw [List.getElem?_eq_none h1] at hj; cases hj
-        rw [List.getElem?_append_left (by simpa using hjlt)]
-        by_cases hji : e.tid = j
-        · subst hji
-          refine ⟨_, by rw [List.getElem?_set_self hjlt], ?_⟩
-          rw [ok.op]
-          rw [hth] at hj
-          cases hj
-          rfl
-        · exact ⟨t, by simp [List.getElem?_set, hji, hj], rfl⟩
-      constructor
-      · intro t ht
-        simp only [List.mem_append] at ht
-        rcases ht with ht | ht
-        · rcases List.mem_or_eq_of_mem_set ht with ht | ht
-          · exact h.pcs t ht
-          · subst ht; exact ok.pc
-        · exact ok.spawn t (by simpa [Option.mem_toList] using ht)
-      · intro ev hev
-        simp only [List.mem_append, List.mem_reverse] at hev
-        rcases hev with hev | hev
-        · obtain ⟨htid, htier⟩ := ok.evs ev hev
-          obtain ⟨t', ht', hop⟩ := hkeep e.tid th hth
-          exact ⟨t', by rw [htid]; exact ht', by rw [hop]; exact htier⟩
-        · exact evOK_mono hkeep (h.evs ev hev)
-    · exact ⟨h.pcs, h.evs⟩
+    · intro ev hev
+      simp only [List.mem_append, List.mem_reverse] at hev
+      rcases hev with hev | hev
+      · obtain ⟨htid, htier⟩ := ok.evs ev hev
+        obtain ⟨t', ht', hop⟩ := hkeep e.tid th hth
+        exact ⟨t', by rw [htid]; exact ht', by rw [hop]; exact htier⟩
+      · exact evOK_mono hkeep (h.evs ev hev)
 
 theorem routeInv_run (V : Variant) (R : Route) (haux : R.aux = R.ck) (sch : List Entry) (cfg : Cfg)
     (h : RouteInv R cfg) : RouteInv R (run V R cfg sch) := by
